@@ -151,6 +151,57 @@ def hasFeature (w : World) (id : Id) : Bool :=
 def allIds (w : World) : List Id :=
   w.points.map (·.id) ++ w.paths.map (·.id) ++ w.areas.map (·.id) ++ w.relations.map (·.id)
 
+/-! ## feature lookup, existence, location, enumeration -/
+
+/-- a feature as a world hands it out -/
+inductive Rec where
+  | point (p : Point) | path (q : Path) | area (a : Area) | relation (r : Relation)
+  deriving DecidableEq, Repr
+
+def Rec.id : Rec → Id
+  | .point p => p.id | .path q => q.id | .area a => a.id | .relation r => r.id
+
+/-- the in-memory world's `FeaturesByID`: one map from id to feature -/
+def allFeatures (w : World) : List Rec :=
+  w.points.map .point ++ w.paths.map .path ++ w.areas.map .area ++ w.relations.map .relation
+
+/-- in-memory `FindFeatureByID` -/
+def findB (w : World) (x : Id) : Option Rec := (allFeatures w).find? fun r => r.id = x
+
+/-- compact `FindFeatureByID`: the feature blocks of the id's type (`findWithoutCache`) -/
+def findC (w : World) (x : Id) : Option Rec :=
+  match x.t with
+  | .point => (w.points.find? fun p => p.id = x).map .point
+  | .path => (w.paths.find? fun q => q.id = x).map .path
+  | .area => (w.areas.find? fun a => a.id = x).map .area
+  | .relation => (w.relations.find? fun r => r.id = x).map .relation
+
+/-- in-memory `HasFeatureWithID` (map membership) / compact `HasFeatureWithID` (`FindFeatureByID != nil`) -/
+def hasB (w : World) (x : Id) : Bool := (findB w x).isSome
+def hasC (w : World) (x : Id) : Bool := (findC w x).isSome
+
+/-- in-memory `FindLocationByID`: the feature under the id, if it is a point -/
+def locB (w : World) (x : Id) : Option String :=
+  match findB w x with
+  | some (.point p) => some p.loc
+  | _ => none
+
+/-- compact `FindLocationByID`: the point blocks of the id's namespace, by value (the id's type is not looked at) -/
+def locC (w : World) (x : Id) : Option String :=
+  (w.points.find? fun p => p.id.ns = x.ns ∧ p.id.v = x.v).map (·.loc)
+
+/-- in-memory `EachFeature`: the id map, in some order -/
+def idsB (w : World) : List Id := (allFeatures w).map Rec.id
+
+/-- `Uint64Map.EachItem` over a block of `nb` buckets: buckets in order, ids sorted within a bucket -/
+def blockOrder (nb : Nat) (l : List Id) : List Id :=
+  (List.range nb).flatMap fun b => sortIds (l.filter fun x => x.v % nb = b)
+
+/-- compact `EachFeature`: point, path, area and relation blocks in turn -/
+def idsC (w : World) (nb : Nat) : List Id :=
+  blockOrder nb (w.points.map (·.id)) ++ blockOrder nb (w.paths.map (·.id)) ++
+  blockOrder nb (w.areas.map (·.id)) ++ blockOrder nb (w.relations.map (·.id))
+
 /-! ## the in-memory world's read path -/
 
 /-- `FeatureReferencesByID`: the features that reference `x` directly -/
